@@ -240,6 +240,14 @@ def einsum [Mul K] [OfNat K 0] [OfNat K 1] (letters : List Char) (sz : Char → 
      let a := unravel sizes t
      (flat a os, flat a xs, prodK (ops.map fun o => o.2.getD (flat a o.1) 0))⟩
 
+/-- DiagonalOperator(diagonal, domain, spaces): `y[c] = d[sub-index of c on spaces] · x[c]`; `dsizes` are the sizes of
+    the diagonal's sub-domains, `spaces[i]` the sub-domain of `domain` that carries the diagonal's i-th sub-domain -/
+def diagonalOp [OfNat K 0] (sizes : List Nat) (spaces : List Nat) (d : List K) : Coo K :=
+  let dsizes := spaces.map fun s => sizes.getD s 1
+  diag (prodL sizes) fun c =>
+    let idx := unravel sizes c
+    d.getD (ravel dsizes (spaces.map fun s => idx.getD s 0)) 0
+
 /-- zero operator (NullOperator) -/
 def null (rows cols : Nat) : Coo K := ⟨rows, cols, []⟩
 
